@@ -68,6 +68,10 @@ mod utils;
 
 pub mod support;
 
+#[cfg(feature = "recmo_uint_verif")]
+#[doc(hidden)]
+pub mod verif_hooks;
+
 #[doc(inline)]
 pub use bit_arr::Bits;
 
